@@ -14,14 +14,64 @@ func init() {
 type chainScen struct {
 	Cfg     *ChainCfg     `json:"config"`
 	Clients [][]*ChainReq `json:"clients"`
+	// Aging: the long-lived server. Before the clients start, the container serves the requests of
+	// AgeCycle one after the other, AgeRounds times over (tens to thousands of requests of an ordinary
+	// kind); every one of them is judged like a client's request. Counters, caches that fill, pools that
+	// cycle, "every Nth" logic and capacities that sufficed for the first few uses are reached this way.
+	AgeCycle  []*ChainReq `json:"aging_cycle,omitempty"`
+	AgeRounds int         `json:"aging_rounds,omitempty"`
+	aged      []*ChainReq
 }
 
+// all: the aging requests (in serving order) followed by the clients' requests.
 func (sc *chainScen) all() []*ChainReq {
+	out := append([]*ChainReq{}, sc.agedReqs()...)
+	return append(out, sc.live()...)
+}
+
+// live: the requests of the simulated clients.
+func (sc *chainScen) live() []*ChainReq {
 	var out []*ChainReq
 	for _, cl := range sc.Clients {
 		out = append(out, cl...)
 	}
 	return out
+}
+
+func (sc *chainScen) agedReqs() []*ChainReq {
+	if sc.aged == nil && sc.AgeRounds > 0 {
+		add := func(r ChainReq) {
+			r.ID = 20000 + len(sc.aged)
+			r.payload = sim.PayloadBytes(fmt.Sprintf("h%d", r.ID), r.N)
+			r.res = [2]*ChainRes{}
+			sc.aged = append(sc.aged, &r)
+		}
+		fill := func(i int) {
+			add(ChainReq{Target: fmt.Sprintf("fill:%d", i), N: 10, Chunks: []int{10}, AE: sc.AgeCycle[0].AE})
+		}
+		// every filler route once, in order
+		for i := 0; i < sc.Cfg.Fill; i++ {
+			fill(i)
+		}
+		for i := 0; i < sc.AgeRounds*len(sc.AgeCycle); i++ {
+			r := *sc.AgeCycle[i%len(sc.AgeCycle)]
+			if round := i / len(sc.AgeCycle); round%2 == 1 && r.AE != "" {
+				// every other round: a spelling of Accept-Encoding never seen before that means the same (an
+				// unknown coding is added); the original spelling comes back in the next round
+				if round%4 == 1 {
+					r.AE = fmt.Sprintf("%s, x-n%d", r.AE, i)
+				} else {
+					r.AE = fmt.Sprintf("x-n%d, %s", i, r.AE)
+				}
+			}
+			add(r)
+		}
+		// and the first filler routes again, after everything else went through
+		for i := 0; i < sc.Cfg.Fill && i < 12; i++ {
+			fill(i)
+		}
+	}
+	return sc.aged
 }
 
 func genChainScen(x *Ctx, k chainKnobs, minClients, maxClients, maxReqs int) *chainScen {
@@ -36,6 +86,26 @@ func genChainScen(x *Ctx, k chainKnobs, minClients, maxClients, maxReqs int) *ch
 		})
 		sc.Clients = append(sc.Clients, reqs)
 	})
+	if tp.Chance(12) {
+		ka := k
+		if ka.maxPayload > 120 {
+			ka.maxPayload = 120
+		}
+		tp.Repeat(1, 4, 600, func(i int) {
+			r := genChainReq(tp, sc.Cfg, ka, 500+i)
+			if r.N > 120 {
+				r.N, r.Chunks = 120, []int{50}
+			}
+			r.AddSvc = false
+			sc.AgeCycle = append(sc.AgeCycle, r)
+		})
+		rounds := []int{8, 33, 130, 520}
+		if x.Thorough() {
+			rounds = append(rounds, 1100, 2100)
+		}
+		sc.AgeRounds = rounds[tp.G(len(rounds))]
+		sc.Cfg.Fill = []int{0, 0, 24, 70, 300}[tp.G(5)]
+	}
 	return sc
 }
 
@@ -69,6 +139,9 @@ func (cfg *ChainCfg) handlerSees(r *ChainReq) (attrs, ctx, gen, params, sel stri
 	if r.Target == "route2" {
 		sel = "/svc2/data/{id}"
 	}
+	if i, ok := fillIndex(r.Target); ok {
+		sel = fmt.Sprintf("/fill/r%d/{id}", i)
+	}
 	for _, f := range fs {
 		switch f.Kind {
 		case "short", "mw-short":
@@ -86,7 +159,7 @@ func (cfg *ChainCfg) handlerSees(r *ChainReq) (attrs, ctx, gen, params, sel stri
 }
 
 func runC06(x *Ctx) {
-	k := chainKnobs{cancels: 80, maxFilters: 3, maxCF: 7, twoServices: true, warm: true, richFilters: true, encoding: false, panics: 120, wfaults: 60, errors: true, plain: true, nested: false, maxPayload: 300, filterWrites: true}
+	k := chainKnobs{swapbuf: true, cancels: 80, maxFilters: 3, maxCF: 7, twoServices: true, warm: true, richFilters: true, encoding: false, panics: 120, wfaults: 60, errors: true, plain: true, nested: false, maxPayload: 300, filterWrites: true}
 	maxClients, maxReqs := 4, 3
 	if x.Thorough() {
 		maxClients, maxReqs = 5, 6
@@ -98,6 +171,7 @@ func runC06(x *Ctx) {
 	s.Preempt = sc.Cfg.Preempt
 	reqs := sc.all()
 	cr := newChainRun(s, sc.Cfg, reqs)
+	cr.age(s, sc)
 	runClients(s, cr, sc, nil)
 	if !s.Run() {
 		return
